@@ -162,7 +162,47 @@ func (t *ActiveTable) Delete(ctx context.Context, req *regattapb.DeleteRangeRequ
 	return &regattapb.DeleteRangeResponse{Deleted: r.ResponseDeleteRange.Deleted, PrevKvs: r.ResponseDeleteRange.PrevKvs, Header: &regattapb.ResponseHeader{Revision: rev}}, nil
 }
 
+// validateTxnOps applies the limits of the standalone requests to the operations nested in a transaction.
+func validateTxnOps(ops []*regattapb.RequestOp) error {
+	for _, op := range ops {
+		var k, rangeEnd, value []byte
+		switch o := op.GetRequest().(type) {
+		case *regattapb.RequestOp_RequestRange:
+			r := o.RequestRange
+			if r.GetLimit() < 0 {
+				return serrors.ErrInvalidLimit
+			}
+			if r.GetKeysOnly() && r.GetCountOnly() {
+				return serrors.ErrKeysOnlyCountOnly
+			}
+			k, rangeEnd = r.GetKey(), r.GetRangeEnd()
+		case *regattapb.RequestOp_RequestPut:
+			k, value = o.RequestPut.GetKey(), o.RequestPut.GetValue()
+		case *regattapb.RequestOp_RequestDeleteRange:
+			k, rangeEnd = o.RequestDeleteRange.GetKey(), o.RequestDeleteRange.GetRangeEnd()
+		default:
+			continue
+		}
+		if len(k) == 0 {
+			return serrors.ErrEmptyKey
+		}
+		if len(k) > key.LatestVersionLen || len(rangeEnd) > key.LatestVersionLen {
+			return serrors.ErrKeyLengthExceeded
+		}
+		if len(value) > MaxValueLen {
+			return serrors.ErrValueLengthExceeded
+		}
+	}
+	return nil
+}
+
 func (t *ActiveTable) Txn(ctx context.Context, req *regattapb.TxnRequest) (*regattapb.TxnResponse, error) {
+	if err := validateTxnOps(req.Success); err != nil {
+		return nil, err
+	}
+	if err := validateTxnOps(req.Failure); err != nil {
+		return nil, err
+	}
 	// Do not propose read-only transactions through the log
 	if req.IsReadonly() {
 		return readTable[*regattapb.TxnResponse](t, ctx, true, req)
